@@ -203,7 +203,10 @@ def main():
                 fa = rng.choice(fails)
                 tw = rng.choice([0.02, 0.2, 1.0])
                 _EXC["cls"] = EXC_CLASSES[si % len(EXC_CLASSES)]
-                kind, detail, sim = run_stage(stage, par, fa, chooser=simmp.RandomChooser(rng.randrange(2 ** 31), timeout_weight=tw))
+                chooser = simmp.RandomChooser(rng.randrange(2 ** 31), timeout_weight=tw)
+                if si % 4 == 3:
+                    chooser = simmp.PCTChooser(rng.randrange(2 ** 31), depth=rng.choice([1, 2, 3, 4]), timeout_prob=rng.choice([0.3, 0.7]))
+                kind, detail, sim = run_stage(stage, par, fa, chooser=chooser)
                 h.case((stage, par, str(fa), tuple(sim.choices)))
                 h.count("stage", stage)
                 h.count("outcome", kind)
